@@ -5,7 +5,9 @@ import (
 	"encoding/hex"
 	"fmt"
 	"math/big"
+	"regexp"
 	"sort"
+	"strconv"
 	"strings"
 
 	"verifsim/fakepg"
@@ -445,6 +447,14 @@ func (w *World) checkCommit(ci *fakepg.CommitInfo) {
 	} else {
 		ps.curNum, ps.curHash = -1, nil
 	}
+	if nDelCur > 0 {
+		// unwound: blocks above the remaining position will be indexed again
+		for b := range ps.unreliable {
+			if b > ps.curNum {
+				delete(ps.unreliable, b)
+			}
+		}
+	}
 	if ps.curNum != prevNum {
 		ps.curHist = append(ps.curHist, curChange{seq: w.commitSeq, num: ps.curNum})
 	}
@@ -617,6 +627,9 @@ func (w *World) checkState(ps *pairState, snap *fakepg.Snapshot, when string) {
 	if err != nil {
 		w.harnessFail("model cannot project %s: %v", ps.key, err)
 		return
+	}
+	if len(ps.unreliable) > 0 {
+		want, got = dropBlocks(want, ps.unreliable), dropBlocks(got, ps.unreliable)
 	}
 	if diff := model.DiffMultisets(want, got, 4); len(diff) > 0 && !ps.lookupsUnreliable {
 		w.violate("state-mismatch", "pair %s (%s): table differs from projection of blocks %d..%d (%d expected, %d stored): %s",
@@ -885,6 +898,23 @@ func (w *World) depsOf(d *model.Decl) []string {
 	}
 	if d.Event != nil {
 		walkInputs(d.Event.Inputs, func(in *model.Input) { add(in.Filter) })
+	}
+	return out
+}
+
+var blockNumRE = regexp.MustCompile(`(^| )block_num=([0-9]+)( |$)`)
+
+// dropBlocks removes the rows of the given blocks from a row multiset.
+func dropBlocks(rows []string, blocks map[int64]bool) []string {
+	var out []string
+	for _, r := range rows {
+		if m := blockNumRE.FindStringSubmatch(r); m != nil {
+			n, _ := strconv.ParseInt(m[2], 10, 64)
+			if blocks[n] {
+				continue
+			}
+		}
+		out = append(out, r)
 	}
 	return out
 }
